@@ -305,81 +305,104 @@ example : let rest := GenBank.bs "     source          1..4\n                   
   refine ⟨?_, trivial⟩
   decide +kernel
 
-/-- `validateOrigin(p, length)` indexes `p` without bounds checks.  For a declared length below
-10^9 and a buffer of at least `toOriginLength(length)` bytes (the reader hands it exactly that
-many) no index is out of range, whatever the bytes are. -/
-theorem validateOrigin_nopanic (p : Bytes) (length : Nat) (hL : length < 10 ^ 9)
+/-- `validateOrigin(p, length)` indexes `p` without bounds checks.  For a declared length of at
+most 1000000020 (`maxOriginResidues`, the guard of `makeGenbankOriginParser` since be672b0) and a
+buffer of at least `toOriginLength(length)` bytes (the reader hands it exactly that many) no index
+is out of range, whatever the bytes are: the lines start at residue `i + 1` with `i` a multiple of
+60 below `length`, so `i ≤ 999999960` and the `%9d` index is nine columns wide.  (Was stated for
+`length < 10^9`; the constant of the Go code is exactly the largest for which this holds, see
+`validateOrigin_wide_index_panics`.) -/
+theorem validateOrigin_nopanic (p : Bytes) (length : Nat) (hL : length ≤ 1000000020)
     (hp : (Origin.toOriginLength (length : Int)).toNat ≤ p.length) :
     Origin.validateOrigin p (length : Int) ≠ .error .panic :=
-  Origin.validateOrigin_ne_panic p length hL (by rwa [Origin.toNat_tl] at hp)
+  Origin.validateOrigin_ne_panic_le p length hL (by rwa [Origin.toNat_tl] at hp)
 
-/-- the bound `length < 10^9` of `validateOrigin_nopanic` cannot be dropped: for a declared length
-of 1000000021 the last line index has ten digits; in its last round (`i = 1000000020`, one residue
-to go) the loop of `validateOrigin` stands before the last `toOriginLength(1) = 12` bytes of its
-buffer, and on the well-formed line `1000000021 a` (ten digits, a blank, the residue: twelve bytes)
-`p[offset] != '\n'` indexes one byte past the end: a run-time panic. -/
+/-- the bound `length ≤ 1000000020` of `validateOrigin_nopanic` cannot be raised by a single
+residue: for a declared length of 1000000021 the last line index has ten digits; in its last round
+(`i = 1000000020`, one residue to go) the loop of `validateOrigin` stands before the last
+`toOriginLength(1) = 12` bytes of its buffer, and on the well-formed line `1000000021 a` (ten
+digits, a blank, the residue: twelve bytes) `p[offset] != '\n'` indexes one byte past the end: a
+run-time panic.  This is about `validateOrigin` itself; since be672b0 the ORIGIN reader refuses
+such a length before it calls `validateOrigin` (`originField_nopanic`). -/
 theorem validateOrigin_wide_index_panics :
     Origin.validateLines 1000000021 1 1000000020 (GenBank.bs "1000000021 a") = .error .panic ∧
       (GenBank.bs "1000000021 a").length = (Origin.toOriginLength (1000000021 - 1000000020)).toNat := by
   decide +kernel
 
 /-- the ORIGIN reader `makeGenbankOriginParser(length)` for a declared length that passed the
-range check of `GenBankParser` (`0 ≤ length`), from any sorted state with fewer than 10^9 bytes
-left, for any bytes: never a panic (not the negative `Request`, not `validateOrigin`'s indexing,
-not the slow path's `p[offset] = '\n'`), and the final state is sorted. -/
+range check of `GenBankParser` (`0 ≤ length`), from ANY sorted state, for any bytes: never a panic
+(not the negative `Request`, not `validateOrigin`'s indexing — a length above 1000000020 is
+refused first —, not the slow path's `p[offset] = '\n'`), and the final state is sorted.  (Before
+be672b0 this needed fewer than 10^9 bytes left.) -/
 theorem originField_nopanic (length : Int) (depth : Nat) (h0 : 0 ≤ length) (s : PS)
-    (hs : Sorted s.rest.length s.stk) (hb : ∀ f ∈ s.stk, f.length < 10 ^ 9)
-    (hlen : s.rest.length < 10 ^ 9) :
+    (hs : Sorted s.rest.length s.stk) :
     ((GenBank.originField length depth).run' s).1 ≠ .error .panic ∧
       Sorted ((GenBank.originField length depth).run' s).2.rest.length
         ((GenBank.originField length depth).run' s).2.stk := by
-  have h : Fr (10 ^ 9 - 1) [] 0 s :=
-    Fr.mk0 (fun f hf => by have := hb f hf; omega) (by omega) hs
-  have := GenBank.originField_safeS (L := 10 ^ 9 - 1) length depth h0 (by omega) s h
+  obtain ⟨L, h⟩ := GenBank.exists_bound s hs
+  have := GenBank.originField_safeS (L := L) length depth h0 s h
   exact ⟨this.1, this.2.srt⟩
 
-/- FULL statement (the target), which is FALSE for the code as it is:
-
-     theorem genbankParser_nopanic (reg) (s : PS) (hs : Sorted s.rest.length s.stk) :
-         ((GenBank.genbankParser reg).run' s).1 ≠ .error .panic
-
-   What is missing: the bound on the input size below.  `validateOrigin` assumes that the line
-   index `fmt.Sprintf("%9d", i+1)` is nine columns wide.  For a declared length of at least
-   10^9 + 21 the last line indices have ten digits; on a WELL-FORMED block of that size every line
-   from there on is one byte longer than `toOriginLength` accounts for, and `p[offset] != '\n'`
-   (genbank_subparsers.go:404) indexes past the end of the requested buffer: a run-time panic.
-   The input needed has more than 1.2 * 10^9 bytes, so the guard is an explicit bound on the bytes
-   left; everything below it is proved for EVERY byte string. -/
+/-- non-vacuity of the three statements above: the block of the four-residue sample is long
+enough for `validateOrigin`; the ORIGIN reader accepts it from a sorted state with a saved
+position; a declared length of 1000000021 is refused (class 1 = error value) before anything is
+indexed, 1000000020 fails at the `Request` -/
+example : (Origin.toOriginLength ((4 : Nat) : Int)).toNat ≤ (GenBank.bs "        1 acgt\n").length ∧
+    Sorted (PS.mk (GenBank.bs "ORIGIN      \n        1 acgt\n//\n")
+      [GenBank.bs "ORIGIN      \n        1 acgt\n//\n"]).rest.length
+      [GenBank.bs "ORIGIN      \n        1 acgt\n//\n"] ∧
+    ((GenBank.originField 4 12).run' ⟨GenBank.bs "ORIGIN      \n        1 acgt\n//\n",
+      [GenBank.bs "ORIGIN      \n        1 acgt\n//\n"]⟩).1 = .ok (GenBank.bs "        1 acgt\n") ∧
+    cls ((GenBank.originField 1000000021 12).run' ⟨GenBank.bs "ORIGIN      \n        1 acgt\n//\n", []⟩).1 = 1 ∧
+    cls ((GenBank.originField 1000000020 12).run' ⟨GenBank.bs "ORIGIN      \n        1 acgt\n//\n", []⟩).1 = 1 := by
+  refine ⟨by decide +kernel, ⟨Nat.le_refl _, trivial⟩, ?_⟩
+  decide +kernel
 
 /-- `seqio.GenBankParser`, entered in ANY state whose saved positions are sorted (in particular
-the fresh state of a scanner) with fewer than 10^9 bytes left, for ANY bytes and any qualifier
-registry: never a panic — neither the `Trail` slice panic (LOCUS line, field names and bodies,
-`tryAllParsers` with its Push / Pop / Drop / Clear traffic, the in-place joined DEFINITION body,
-the feature table) nor one of the ORIGIN reader's — and the final state is sorted and not before
-the entry position. -/
-theorem genbankParser_nopanic_partial (reg : GenBank.Registry) (s : PS)
-    (hs : Sorted s.rest.length s.stk) (hlen : s.rest.length < 10 ^ 9) :
+the fresh state of a scanner), for ANY bytes and any qualifier registry: never a panic — neither
+the `Trail` slice panic (LOCUS line, field names and bodies, `tryAllParsers` with its Push / Pop /
+Drop / Clear traffic, the in-place joined DEFINITION body, the feature table) nor one of the ORIGIN
+reader's — and the final state is sorted and not before the entry position.
+(The FULL statement; before be672b0 it was false — `validateOrigin` panicked on a well-formed
+block of more than 1000000020 residues — and only the `_partial` form below was proved.) -/
+theorem genbankParser_nopanic (reg : GenBank.Registry) (s : PS)
+    (hs : Sorted s.rest.length s.stk) :
     ((GenBank.genbankParser reg).run' s).1 ≠ .error .panic ∧
       Sorted ((GenBank.genbankParser reg).run' s).2.rest.length
         ((GenBank.genbankParser reg).run' s).2.stk ∧
       ((GenBank.genbankParser reg).run' s).2.rest.length ≤ s.rest.length :=
-  GenBank.genbankParser_wp reg s hs hlen
+  GenBank.genbankParser_wp reg s hs
 
-/-- … in particular on the fresh state of `pars.FromBytes(input)`, for EVERY byte string shorter
-than 10^9 bytes. -/
-theorem genbankParser_fresh_nopanic_partial (reg : GenBank.Registry) (input : Bytes)
-    (hlen : input.length < 10 ^ 9) :
+/-- corollary kept under its old name: the same with fewer than 10^9 bytes left (the hypothesis
+is no longer used) -/
+theorem genbankParser_nopanic_partial (reg : GenBank.Registry) (s : PS)
+    (hs : Sorted s.rest.length s.stk) (_hlen : s.rest.length < 10 ^ 9) :
+    ((GenBank.genbankParser reg).run' s).1 ≠ .error .panic ∧
+      Sorted ((GenBank.genbankParser reg).run' s).2.rest.length
+        ((GenBank.genbankParser reg).run' s).2.stk ∧
+      ((GenBank.genbankParser reg).run' s).2.rest.length ≤ s.rest.length :=
+  genbankParser_nopanic reg s hs
+
+/-- … in particular on the fresh state of `pars.FromBytes(input)`, for EVERY byte string. -/
+theorem genbankParser_fresh_nopanic (reg : GenBank.Registry) (input : Bytes) :
     ((GenBank.genbankParser reg).run' ⟨input, []⟩).1 ≠ .error .panic :=
-  (GenBank.genbankParser_wp reg ⟨input, []⟩ trivial hlen).1
+  (GenBank.genbankParser_wp reg ⟨input, []⟩ trivial).1
 
-/- FULL statement: `theorem readAll_nopanic (reg) (input) : GenBank.readAll reg input ≠ none`;
-   missing for the same reason as above. -/
+/-- corollary kept under its old name (byte strings shorter than 10^9 bytes) -/
+theorem genbankParser_fresh_nopanic_partial (reg : GenBank.Registry) (input : Bytes)
+    (_hlen : input.length < 10 ^ 9) :
+    ((GenBank.genbankParser reg).run' ⟨input, []⟩).1 ≠ .error .panic :=
+  genbankParser_fresh_nopanic reg input
 
-/-- Scanning ANY byte stream shorter than 10^9 bytes as GenBank (record after record until the
-input is used up or a record fails) never panics. -/
+/-- Scanning ANY byte stream as GenBank (record after record until the input is used up or a
+record fails) never panics.  (The FULL statement, for every byte string and every registry.) -/
+theorem readAll_nopanic (reg : GenBank.Registry) (input : Bytes) : GenBank.readAll reg input ≠ none :=
+  GenBank.parseAll_ne_none _ reg input []
+
+/-- corollary kept under its old name (byte streams shorter than 10^9 bytes) -/
 theorem readAll_nopanic_partial (reg : GenBank.Registry) (input : Bytes)
-    (hlen : input.length < 10 ^ 9) : GenBank.readAll reg input ≠ none :=
-  GenBank.parseAll_ne_none _ reg input [] hlen
+    (_hlen : input.length < 10 ^ 9) : GenBank.readAll reg input ≠ none :=
+  readAll_nopanic reg input
 
 /-- the LOCUS length of the record that starts at `s`, as `genbankLocusParser` reads it
 (specification helper: re-reads the LOCUS line, nothing else) -/
@@ -407,9 +430,9 @@ def sampleRecord : Bytes :=
   GenBank.bs "LOCUS       X 4 bp DNA linear UNA 01-JAN-2000\nDEFINITION  d.\nORIGIN      \n        1 acgt\n//\n"
 
 /-- non-vacuity: the sample record (fresh state: sorted, 88 bytes) is accepted with `Len() = 4`
-= the declared length; with one residue missing, one too many or a negative length the same text
-is an error value (class 1), not a panic and not a shorter sequence; two records in one stream are
-both read -/
+= the declared length; with one residue missing, one too many, a negative length or a length the
+nine column index cannot number (1000000021) the same text is an error value (class 1), not a
+panic and not a shorter sequence; two records in one stream are both read -/
 example : Sorted (PS.mk sampleRecord []).rest.length (PS.mk sampleRecord []).stk ∧
     sampleRecord.length < 10 ^ 9 ∧
     ((GenBank.genbankParser GenBank.Registry.default).run' ⟨sampleRecord, []⟩).1.toOption.map
@@ -423,6 +446,8 @@ example : Sorted (PS.mk sampleRecord []).rest.length (PS.mk sampleRecord []).stk
       "LOCUS       X -4 bp DNA linear UNA 01-JAN-2000\nORIGIN      \n        1 acgt\n//\n", []⟩).1 = 1 ∧
     cls ((GenBank.genbankParser GenBank.Registry.default).run' ⟨GenBank.bs
       "LOCUS       X 4 bp DNA linear UNA 01-JAN-2000\n//\n", []⟩).1 = 1 ∧
+    cls ((GenBank.genbankParser GenBank.Registry.default).run' ⟨GenBank.bs
+      "LOCUS       X 1000000021 bp DNA linear UNA 01-JAN-2000\nORIGIN      \n        1 acgt\n//\n", []⟩).1 = 1 ∧
     (GenBank.readAll GenBank.Registry.default (sampleRecord ++ sampleRecord)).map
       (fun r => (r.1.length, r.2.2)) = some (2, true) := by
   refine ⟨trivial, ?_⟩
@@ -431,37 +456,38 @@ example : Sorted (PS.mk sampleRecord []).rest.length (PS.mk sampleRecord []).stk
 /-! ## the sequence of an accepted record decodes to the declared number of residues -/
 
 /-- `validateOrigin` accepts nothing but written blocks: a buffer of `toOriginLength(L)` bytes
-that it accepts (`L < 10^9`) is byte for byte the block `NewOrigin` writes for `L` printable
-residues … -/
-theorem accepted_block_is_written (b : Bytes) (L : Nat) (hL : L < 10 ^ 9)
+that it accepts (`L ≤ 1000000020`, the guard of the reader; was `L < 10^9`) is byte for byte the
+block `NewOrigin` writes for `L` printable residues … -/
+theorem accepted_block_is_written (b : Bytes) (L : Nat) (hL : L ≤ 1000000020)
     (hb : b.length = (Origin.toOriginLength (L : Int)).toNat)
     (h : Origin.validateOrigin b (L : Int) = .ok ()) :
     ∃ p, b = Origin.originStream p ∧ (∀ c ∈ p, Origin.isBase c = true) ∧ p.length = L :=
-  Origin.validateOrigin_inv b L hL (by rw [hb, Origin.toNat_tl]) h
+  Origin.validateOrigin_inv_le b L hL (by rw [hb, Origin.toNat_tl]) h
 
 /-- … and whatever the ORIGIN reader `makeGenbankOriginParser(length)` returns (fast or slow
-path, `0 ≤ length < 10^9`) is such a block: `Origin.Bytes()` on it does not panic and yields
-exactly `length` printable residues. -/
-theorem originField_decodes (length : Nat) (depth : Nat) (hL : length < 10 ^ 9) (s s' : PS)
+path, any `0 ≤ length`: a length above 1000000020 returns nothing) is such a block:
+`Origin.Bytes()` on it does not panic and yields exactly `length` printable residues. -/
+theorem originField_decodes (length : Nat) (depth : Nat) (s s' : PS)
     (b : Bytes) (h : (GenBank.originField (length : Int) depth).run' s = (.ok b, s')) :
     ∃ p, Origin.originBytes b = .ok p ∧ p.length = length ∧ (∀ c ∈ p, Origin.isBase c = true) ∧
       b = Origin.originStream p := by
-  have := GenBank.originField_accepted length depth hL s
+  have := GenBank.originField_accepted length depth s
   unfold WP at this
   rw [h] at this
-  obtain ⟨hv, hl⟩ := this b rfl
-  exact Origin.accepted_decodes b length hL hl hv
+  obtain ⟨hL, hv, hl⟩ := this b rfl
+  exact Origin.accepted_decodes_le b length hL hl hv
 
-/-- INTERNAL CONSISTENCY, residues: every record `GenBankParser` returns whose LOCUS line declares
-fewer than 10^9 residues carries a sequence that `Origin.Bytes()` decodes WITHOUT a panic to
-exactly `Origin.Len()` residues, all printable — together with `genbank_length_consistent`:
-declared length = `Len()` = number of residues (or no sequence next to a CONTIG line). -/
+/-- INTERNAL CONSISTENCY, residues: every record `GenBankParser` returns (whatever its LOCUS line
+declares; the restriction to fewer than 10^9 residues is gone with be672b0) carries a sequence
+that `Origin.Bytes()` decodes WITHOUT a panic to exactly `Origin.Len()` residues, all printable —
+together with `genbank_length_consistent`: declared length = `Len()` = number of residues (or no
+sequence next to a CONTIG line). -/
 theorem genbank_sequence_decodes (reg : GenBank.Registry) (s : PS) (r : GenBank.Record)
     (reg' : GenBank.Registry) (s' : PS)
     (h : (GenBank.genbankParser reg).run' s = (.ok (r, reg'), s')) :
-    ∃ n, declaredLength s = some n ∧ (n < 10 ^ 9 →
+    ∃ n, declaredLength s = some n ∧
       ∃ p, r.origin.bytes = .ok p ∧ (p.length : Int) = r.origin.len ∧
-        ∀ c ∈ p, Origin.isBase c = true) := by
+        ∀ c ∈ p, Origin.isBase c = true := by
   obtain ⟨l, s1, hl, hd⟩ := GenBank.genbankParser_decodes reg s r reg' s' h
   refine ⟨l.length, ?_, hd⟩
   unfold declaredLength
@@ -538,21 +564,26 @@ theorem dblinkMore_fuel_stable (depth : Nat) (hd : 1 ≤ depth) (n m : Nat) (f :
   GenBank.dblinkMore_fuel depth hd n m f s hn hm
 
 /-- a record that `GenBankParser` returns has consumed at least the five bytes of `LOCUS`
-(from any sorted state, fewer than 10^9 bytes left) … -/
+(from any sorted state) … -/
 theorem genbankParser_consumes (reg : GenBank.Registry) (s : PS) (hs : Sorted s.rest.length s.stk)
-    (hlen : s.rest.length < 10 ^ 9) (v : GenBank.Record × GenBank.Registry)
+    (v : GenBank.Record × GenBank.Registry)
     (h : ((GenBank.genbankParser reg).run' s).1 = .ok v) :
     ((GenBank.genbankParser reg).run' s).2.rest.length + 5 ≤ s.rest.length :=
-  GenBank.genbankParser_consumes reg s hs hlen v h
+  GenBank.genbankParser_consumes reg s hs v h
 
 /-- … so the scan loop's fuel `len(input) + 1` is adequate: any two fuels above the number of
-bytes give the same records (input shorter than 10^9 bytes; the bound is only there because the
-proof goes through the no-panic invariant). -/
+bytes give the same records, for every byte string. -/
+theorem parseAll_fuel_stable (reg : GenBank.Registry) (input : Bytes)
+    (acc : List GenBank.Record) (n m : Nat) (hn : input.length < n) (hm : input.length < m) :
+    GenBank.parseAll reg n input acc = GenBank.parseAll reg m input acc :=
+  GenBank.parseAll_fuel n m reg input acc hn hm
+
+/-- corollary kept under its old name (input shorter than 10^9 bytes) -/
 theorem parseAll_fuel_stable_partial (reg : GenBank.Registry) (input : Bytes)
-    (acc : List GenBank.Record) (n m : Nat) (hlen : input.length < 10 ^ 9)
+    (acc : List GenBank.Record) (n m : Nat) (_hlen : input.length < 10 ^ 9)
     (hn : input.length < n) (hm : input.length < m) :
     GenBank.parseAll reg n input acc = GenBank.parseAll reg m input acc :=
-  GenBank.parseAll_fuel n m reg input acc hlen hn hm
+  parseAll_fuel_stable reg input acc n m hn hm
 
 /-- non-vacuity: the refuting state is sorted and the two fuels are at least `2n+2`; in the sample
 record the body loop runs with `depth = 12`, and the scan loop on two records agrees for the
